@@ -196,6 +196,15 @@ class Folder:
                     if self.m.is_subclass(self_cls, q):
                         return True
                 return False
+            if isinstance(f, ast.Attribute) and f.attr == "join" and len(e.args) == 1 and not e.keywords:
+                # "<sep>".join(<comprehension over an enum class / a constant tuple>)
+                sep = self.fold(f.value, module, env, self_cls)
+                if not isinstance(sep, (str, bytes)):
+                    raise Unfoldable("join on a non-constant separator")
+                items = self._fold_iterable(e.args[0], module, env, self_cls)
+                if not all(isinstance(x, type(sep)) for x in items):
+                    raise Unfoldable("join of non-text items")
+                return sep.join(items)
             q = self.m.resolve_name(module, ftxt)
             if q == f"{ASN1}.ASN1Tag":
                 args = {}
@@ -253,6 +262,31 @@ class Folder:
                 return base[idx]
             raise Unfoldable("subscript")
         raise Unfoldable(f"expression {type(e).__name__}: {norm(e)[:60]}")
+
+    def _fold_iterable(self, e: ast.expr, module: str, env, self_cls) -> list:
+        """the items of a tuple / list display, of an enum class (its members in definition order) or of a one-generator
+        comprehension over one of those, folded"""
+        if isinstance(e, (ast.Tuple, ast.List)):
+            return [self.fold(x, module, env, self_cls) for x in e.elts]
+        if isinstance(e, (ast.Name, ast.Attribute)):
+            q = self.m.resolve_name(module, norm(e))
+            if q in self.m.classes and self.m.classes[q].is_enum:
+                c = self.m.classes[q]
+                return [self.enum_member(q, name) for name in c.consts if not name.startswith("_")]
+            v = self.fold(e, module, env, self_cls)
+            if isinstance(v, (tuple, list)):
+                return list(v)
+            raise Unfoldable(f"iteration over {norm(e)[:40]}")
+        if isinstance(e, (ast.GeneratorExp, ast.ListComp)) and len(e.generators) == 1 and isinstance(e.generators[0].target, ast.Name) and not e.generators[0].is_async:
+            g = e.generators[0]
+            out = []
+            for item in self._fold_iterable(g.iter, module, env, self_cls):
+                env2 = dict(env or {})
+                env2[g.target.id] = item
+                if all(self.fold(c, module, env2, self_cls) for c in g.ifs):
+                    out.append(self.fold(e.elt, module, env2, self_cls))
+            return out
+        raise Unfoldable(f"iteration over {type(e).__name__}")
 
     @staticmethod
     def _key(v: Any) -> Any:
